@@ -3583,7 +3583,10 @@ def sort_objects_for_delta(
         magic.append((type_num, path, -obj.raw_length(), obj))
     # Build a list of objects ordered by the magic Linus heuristic
     # This helps us find good objects to diff against us
-    magic.sort()
+    # type_num and path may be None for some entries and set for others
+    magic.sort(
+        key=lambda m: (m[0] is not None, m[0] or 0, m[1] is not None, m[1] or b"", m[2], m[3])
+    )
     return ((x[3], x[1]) for x in magic)
 
 
